@@ -60,7 +60,8 @@ def workdir(tag):
     global _workroot
     root = os.path.join(VERIF, ".work")
     os.makedirs(root, exist_ok=True)
-    d = os.path.join(root, "%s-%d-%d" % (tag, os.getpid(), int(time.time() * 1000) % 100000000))
+    import uuid
+    d = os.path.join(root, "%s-%d-%s" % (tag, os.getpid(), uuid.uuid4().hex[:10]))
     os.makedirs(d)
     for f in os.listdir(SPECS):
         if f.endswith((".tla", ".cfg")):
